@@ -998,7 +998,9 @@ class RealPart(Operator):
 
     def _call(self, x):
         """Return ``self(x)``."""
-        return x.real
+        # `x.real` is `x` itself or a view into `x`; the result of an
+        # out-of-place evaluation must not share memory with the input
+        return x.real.copy()
 
     def derivative(self, x):
         r"""Return the derivative operator in the "C = R^2" sense.
@@ -1125,7 +1127,9 @@ class ImagPart(Operator):
 
     def _call(self, x):
         """Return ``self(x)``."""
-        return x.imag
+        # `x.imag` can be a view into `x`; the result of an out-of-place
+        # evaluation must not share memory with the input
+        return x.imag.copy()
 
     def derivative(self, x):
         r"""Return the derivative operator in the "C = R^2" sense.
